@@ -528,6 +528,25 @@ func c03Alphabet(s *sessSys) []sessReq {
 				nq.GateUL ^= 1
 				add("mod-uqer", sessReq{sReq: sReq{Kind: kMod, Conn: c, UpdateQER: []sQER{nq}}, Sess: x.Idx})
 			}
+			q4common := len(x.PDRs) > 0
+			for _, p := range x.PDRs {
+				has := false
+				for _, id := range p.QERs {
+					if id == 4 {
+						has = true
+					}
+				}
+				q4common = q4common && has
+			}
+			// (only while QER 4 is still referenced by every PDR: once a modification has made it an ordinary QER, the
+			// stale session-table entries are the recorded finding c09:limiter-also-app, not something to re-report here)
+			if q := x.qer(4); q != nil && q.MBRDL < 90020 && q4common {
+				// the session-wide QER alone (an AMBR change): nothing else in the message
+				nq := *q
+				nq.MBRDL += 5
+				nq.MBRUL += 5
+				add("mod-uqer-session", sessReq{sReq: sReq{Kind: kMod, Conn: c, UpdateQER: []sQER{nq}}, Sess: x.Idx})
+			}
 			if len(x.PDRs) > 0 {
 				first, last := x.PDRs[0].ID, x.PDRs[len(x.PDRs)-1].ID
 				add("mod-rpdr-first", sessReq{sReq: sReq{Kind: kMod, Conn: c, RemovePDR: []uint16{first}}, Sess: x.Idx})
